@@ -266,6 +266,9 @@ def degenerate_histories(recipe, rng, reads=True):
     if masked:
         ops = []
         on = [x for x in masked if not bool(w.objs[x].mask.disabled)]
+        if not on:                        # every mask is disabled already: the first one enabled, then disabled again
+            ops.append(("maskoff", masked[0], False))
+            on = [masked[0]]
         for k, x in enumerate(on):
             if reads and k == len(on) - 1:
                 ops += read_all(w)
